@@ -5,6 +5,7 @@ import (
 	"go/token"
 	"go/types"
 	"sort"
+	"strconv"
 	"strings"
 
 	"golang.org/x/tools/go/ssa"
@@ -87,6 +88,264 @@ func (p *Prog) PathExists(fn *ssa.Function, from ssa.Instruction, to, avoid Pred
 		}
 		return strings.Join(out, ";") + ";"
 	}
+	// --- integer facts: constants carried by join phis (ι), the value a join phi received on this path (ρ), and
+	// comparisons of a value with a constant that the path has decided (κ) ---
+	setEnvS := func(env, key, val string) string {
+		var out []string
+		for _, pt := range strings.Split(env, ";") {
+			if pt == "" || strings.HasPrefix(pt, key+"=") {
+				continue
+			}
+			out = append(out, pt)
+		}
+		out = append(out, key+"="+val)
+		sort.Strings(out)
+		return strings.Join(out, ";") + ";"
+	}
+	getEnv := func(env, key string) (string, bool) {
+		if env == "" {
+			return "", false
+		}
+		for _, pt := range strings.Split(env, ";") {
+			if strings.HasPrefix(pt, key+"=") {
+				return pt[len(key)+1:], true
+			}
+		}
+		return "", false
+	}
+	dropPrefix := func(env, prefix string) string {
+		if env == "" || !strings.Contains(env, prefix) {
+			return env
+		}
+		var out []string
+		for _, pt := range strings.Split(env, ";") {
+			if pt == "" || strings.HasPrefix(pt, prefix) {
+				continue
+			}
+			out = append(out, pt)
+		}
+		if len(out) == 0 {
+			return ""
+		}
+		return strings.Join(out, ";") + ";"
+	}
+	vkey := func(v ssa.Value) string {
+		par := ""
+		if in, ok := v.(ssa.Instruction); ok && in.Parent() != nil {
+			par = uniqFuncName(in.Parent())
+		} else if pr, ok := v.(*ssa.Parameter); ok {
+			par = uniqFuncName(pr.Parent())
+		}
+		return v.Name() + "@" + par
+	}
+	intConst := func(v ssa.Value) (int64, bool) {
+		c, ok := v.(*ssa.Const)
+		if !ok || c.Value == nil || c.Value.Kind() != constant.Int {
+			return 0, false
+		}
+		return c.Int64(), true
+	}
+	// resolve: the constant a value holds on this path, or the key of the value it stands for
+	resolveInt := func(env string, v ssa.Value) (c int64, isC bool, key string) {
+		// a read of a local variable with a single reaching assignment is that assignment's value
+		for i := 0; i < 4; i++ {
+			ld, isL := v.(*ssa.UnOp)
+			if !isL || ld.Op != token.MUL {
+				break
+			}
+			al := p.addrAlloc(ld.X)
+			if al == nil {
+				break
+			}
+			// ... or the last assignment in the block of the read
+			var last ssa.Value
+			for _, in2 := range ld.Block().Instrs {
+				if in2 == ssa.Instruction(ld) {
+					break
+				}
+				if st2, isSt := in2.(*ssa.Store); isSt && p.addrAlloc(st2.Addr) == al {
+					last = st2.Val
+				}
+				if _, isCall := in2.(*ssa.Call); isCall && last != nil && len(*al.Referrers()) > 0 {
+					// a call between the assignment and the read could write a captured variable
+					for _, r := range *al.Referrers() {
+						if _, isMC := r.(*ssa.MakeClosure); isMC {
+							last = nil
+						}
+					}
+				}
+			}
+			if last != nil {
+				v = last
+				continue
+			}
+			if len(p.storesToAlloc[al]) != 1 {
+				break
+			}
+			v = p.storesToAlloc[al][0].Val
+		}
+		if k, ok := intConst(v); ok {
+			return k, true, ""
+		}
+		if ph, ok := v.(*ssa.Phi); ok {
+			if sv, has := getEnv(env, "ι"+vkey(ph)); has {
+				if n, err := strconv.ParseInt(sv, 10, 64); err == nil {
+					return n, true, ""
+				}
+			}
+			if rk, has := getEnv(env, "ρ"+vkey(ph)); has {
+				return 0, false, rk
+			}
+		}
+		return 0, false, vkey(v)
+	}
+	holds := func(x int64, op token.Token, c int64) bool {
+		switch op {
+		case token.LSS:
+			return x < c
+		case token.LEQ:
+			return x <= c
+		case token.GTR:
+			return x > c
+		case token.GEQ:
+			return x >= c
+		case token.EQL:
+			return x == c
+		}
+		return x != c
+	}
+	// cmpOf: cond as (value, op, constant), the constant on the right
+	cmpParts := func(cond ssa.Value) (ssa.Value, token.Token, int64, bool) {
+		b, ok := cond.(*ssa.BinOp)
+		if !ok {
+			return nil, 0, 0, false
+		}
+		switch b.Op {
+		case token.LSS, token.LEQ, token.GTR, token.GEQ, token.EQL, token.NEQ:
+		default:
+			return nil, 0, 0, false
+		}
+		if bt, isB := b.X.Type().Underlying().(*types.Basic); !isB || bt.Info()&types.IsInteger == 0 {
+			return nil, 0, 0, false
+		}
+		if c, isC := intConst(b.Y); isC {
+			return b.X, b.Op, c, true
+		}
+		if c, isC := intConst(b.X); isC {
+			op := b.Op
+			switch b.Op {
+			case token.LSS:
+				op = token.GTR
+			case token.LEQ:
+				op = token.GEQ
+			case token.GTR:
+				op = token.LSS
+			case token.GEQ:
+				op = token.LEQ
+			}
+			return b.Y, op, c, true
+		}
+		return nil, 0, 0, false
+	}
+	// intKnown: the truth of an integer comparison given the path's facts
+	intKnown := func(env string, cond ssa.Value) (bool, bool) {
+		v, op, c, ok := cmpParts(cond)
+		if !ok || env == "" {
+			return false, false
+		}
+		k, isC, key := resolveInt(env, v)
+		if isC {
+			return holds(k, op, c), true
+		}
+		// candidate integers around every threshold mentioned for this value
+		prefix := "κ" + key + "|"
+		type fact struct {
+			op    token.Token
+			c     int64
+			truth bool
+		}
+		var facts []fact
+		for _, pt := range strings.Split(env, ";") {
+			if !strings.HasPrefix(pt, prefix) {
+				continue
+			}
+			rest := pt[len(prefix):]
+			eq := strings.Index(rest, "=")
+			bar := strings.Index(rest, "|")
+			if eq < 0 || bar < 0 || bar > eq {
+				continue
+			}
+			opn, err1 := strconv.Atoi(rest[:bar])
+			cv, err2 := strconv.ParseInt(rest[bar+1:eq], 10, 64)
+			if err1 != nil || err2 != nil {
+				continue
+			}
+			facts = append(facts, fact{token.Token(opn), cv, rest[eq+1:] == "true"})
+		}
+		if len(facts) == 0 {
+			return false, false
+		}
+		cands := map[int64]bool{c - 1: true, c: true, c + 1: true}
+		for _, f := range facts {
+			cands[f.c-1], cands[f.c], cands[f.c+1] = true, true, true
+		}
+		sawT, sawF := false, false
+		for x := range cands {
+			okx := true
+			for _, f := range facts {
+				if holds(x, f.op, f.c) != f.truth {
+					okx = false
+				}
+			}
+			if !okx {
+				continue
+			}
+			if holds(x, op, c) {
+				sawT = true
+			} else {
+				sawF = true
+			}
+		}
+		if sawT != sawF {
+			return sawT, true
+		}
+		return false, false
+	}
+	// intRecord: remember the outcome of an integer comparison with a constant
+	intRecord := func(env string, cond ssa.Value, truth bool) string {
+		for {
+			if u, ok := cond.(*ssa.UnOp); ok && u.Op == token.NOT {
+				cond, truth = u.X, !truth
+				continue
+			}
+			break
+		}
+		v, op, c, ok := cmpParts(cond)
+		if !ok {
+			return env
+		}
+		_, isC, key := resolveInt(env, v)
+		if isC || key == "" {
+			return env
+		}
+		return setEnvS(env, "κ"+key+"|"+strconv.Itoa(int(op))+"|"+strconv.FormatInt(c, 10), map[bool]string{true: "true", false: "false"}[truth])
+	}
+	// what the branches that dominate the starting point decided about integers
+	if from != nil {
+		blk := from.Block()
+		for d := blk; d != nil && d.Idom() != nil; d = d.Idom() {
+			a := d.Idom()
+			ifi, isIf := a.Instrs[len(a.Instrs)-1].(*ssa.If)
+			if !isIf {
+				continue
+			}
+			d0 := a.Succs[0].Dominates(blk) && len(a.Succs[0].Preds) == 1
+			d1 := a.Succs[1].Dominates(blk) && len(a.Succs[1].Preds) == 1
+			if d0 != d1 {
+				st.env = intRecord(st.env, ifi.Cond, d0)
+			}
+		}
+	}
 	known := func(env string, cond ssa.Value) (bool, bool) {
 		neg := false
 		for {
@@ -95,6 +354,9 @@ func (p *Prog) PathExists(fn *ssa.Function, from ssa.Instruction, to, avoid Pred
 				continue
 			}
 			break
+		}
+		if b, ok := intKnown(env, cond); ok {
+			return b != neg, true
 		}
 		key := ""
 		switch x := cond.(type) {
@@ -190,6 +452,44 @@ func (p *Prog) PathExists(fn *ssa.Function, from ssa.Instruction, to, avoid Pred
 			}
 			// entering a block with boolean phis (short-circuit || and &&): remember the constant this edge contributes
 			env := env
+			if ifi, isIf := b.Instrs[len(b.Instrs)-1].(*ssa.If); isIf {
+				env = intRecord(env, ifi.Cond, i == 0)
+			}
+			// facts about values that the block about to be entered (re)computes are stale
+			if strings.Contains(env, "κ") {
+				for _, in := range s.Instrs {
+					if v, isV := in.(ssa.Value); isV {
+						if _, isPh := in.(*ssa.Phi); !isPh {
+							env = dropPrefix(env, "κ"+vkey(v)+"|")
+						}
+					}
+				}
+			}
+			for _, in := range s.Instrs {
+				ph, isPh := in.(*ssa.Phi)
+				if !isPh {
+					break
+				}
+				bt, isB := ph.Type().Underlying().(*types.Basic)
+				if !isB || bt.Info()&types.IsInteger == 0 {
+					continue
+				}
+				for k, pb := range s.Preds {
+					if pb != b {
+						continue
+					}
+					pk := vkey(ph)
+					c, isC, rk := resolveInt(env, ph.Edges[k])
+					env = dropPrefix(env, "κ"+pk+"|")
+					if isC {
+						env = dropEnv(env, "ρ"+pk)
+						env = setEnvS(env, "ι"+pk, strconv.FormatInt(c, 10))
+					} else {
+						env = dropEnv(env, "ι"+pk)
+						env = setEnvS(env, "ρ"+pk, rk)
+					}
+				}
+			}
 			for _, in := range s.Instrs {
 				ph, isPh := in.(*ssa.Phi)
 				if !isPh {
@@ -640,6 +940,9 @@ func (p *Prog) feasibleAt(at ssa.Instruction) func(blk *ssa.BasicBlock) []int {
 		ph   *ssa.Phi
 		want bool
 		nilT bool // a nil test: want = "is non-nil"
+		intT bool // an integer comparison with a constant: (phi op c) == want
+		op   token.Token
+		c    int64
 	}
 	var facts []fact
 	from := at.Block()
@@ -663,7 +966,7 @@ func (p *Prog) feasibleAt(at ssa.Instruction) func(blk *ssa.BasicBlock) []int {
 			break
 		}
 		if ph, ok := cond.(*ssa.Phi); ok && isBool(ph.Type()) {
-			facts = append(facts, fact{ph, want, false})
+			facts = append(facts, fact{ph: ph, want: want})
 		}
 		// x != nil / x == nil on a joined pointer, error, ...
 		if bo, ok := cond.(*ssa.BinOp); ok && (bo.Op == token.EQL || bo.Op == token.NEQ) {
@@ -674,7 +977,54 @@ func (p *Prog) feasibleAt(at ssa.Instruction) func(blk *ssa.BasicBlock) []int {
 				other = bo.Y
 			}
 			if ph, isPh := other.(*ssa.Phi); isPh {
-				facts = append(facts, fact{ph, want == (bo.Op == token.NEQ), true})
+				facts = append(facts, fact{ph: ph, want: want == (bo.Op == token.NEQ), nilT: true})
+			}
+		}
+		// n <= 0 and the like on a joined integer (also read back from the variable it was just assigned to)
+		if bo, ok := cond.(*ssa.BinOp); ok {
+			var v ssa.Value
+			var c int64
+			op := bo.Op
+			if k, isC := bo.Y.(*ssa.Const); isC && k.Value != nil && k.Value.Kind() == constant.Int {
+				v, c = bo.X, k.Int64()
+			} else if k, isC := bo.X.(*ssa.Const); isC && k.Value != nil && k.Value.Kind() == constant.Int {
+				v, c = bo.Y, k.Int64()
+				switch op {
+				case token.LSS:
+					op = token.GTR
+				case token.LEQ:
+					op = token.GEQ
+				case token.GTR:
+					op = token.LSS
+				case token.GEQ:
+					op = token.LEQ
+				}
+			}
+			switch op {
+			case token.LSS, token.LEQ, token.GTR, token.GEQ, token.EQL, token.NEQ:
+			default:
+				v = nil
+			}
+			if ld, isL := v.(*ssa.UnOp); isL && ld.Op == token.MUL {
+				if al := p.addrAlloc(ld.X); al != nil {
+					var last ssa.Value
+					for _, in2 := range ld.Block().Instrs {
+						if in2 == ssa.Instruction(ld) {
+							break
+						}
+						if st2, isSt := in2.(*ssa.Store); isSt && p.addrAlloc(st2.Addr) == al {
+							last = st2.Val
+						} else if _, isCall := in2.(*ssa.Call); isCall {
+							last = nil
+						}
+					}
+					if last != nil {
+						v = last
+					}
+				}
+			}
+			if ph, isPh := v.(*ssa.Phi); isPh {
+				facts = append(facts, fact{ph: ph, want: want, intT: true, op: op, c: c})
 			}
 		}
 	}
@@ -693,6 +1043,31 @@ func (p *Prog) feasibleAt(at ssa.Instruction) func(blk *ssa.BasicBlock) []int {
 			ok := true
 			for _, f := range facts {
 				if f.ph.Block() != blk {
+					continue
+				}
+				if f.intT {
+					if k, isC := f.ph.Edges[k].(*ssa.Const); isC && k.Value != nil && k.Value.Kind() == constant.Int {
+						constrained = true
+						x := k.Int64()
+						var h bool
+						switch f.op {
+						case token.LSS:
+							h = x < f.c
+						case token.LEQ:
+							h = x <= f.c
+						case token.GTR:
+							h = x > f.c
+						case token.GEQ:
+							h = x >= f.c
+						case token.EQL:
+							h = x == f.c
+						default:
+							h = x != f.c
+						}
+						if h != f.want {
+							ok = false
+						}
+					}
 					continue
 				}
 				if f.nilT {
